@@ -8,6 +8,7 @@
   storages, request contents, value lists and op histories.
 -/
 import Ipv8.C15.Lemmas
+import Ipv8.C15.WireLemmas
 
 namespace Ipv8.C15
 
@@ -319,6 +320,45 @@ theorem highest_version_per_signer {Tok : Type} (C : Crypto Tok) (blobs : List B
     · simp at hx
 
 
+/-- Every signer that has at least one verifying value among the processed ones is reported, and no signer is reported
+    twice (for every list of values). -/
+theorem each_signer_reported_once {Tok : Type} (C : Crypto Tok) (blobs : List Blob) (res : List (Nat × Option Nat))
+    (h : postProcess C blobs = some res) :
+    res.Pairwise (fun x y => ∀ pk, x.2 = some pk → y.2 ≠ some pk) ∧
+    ∀ b ∈ blobs, ∀ d v pk pkh sig, b.wire = .signed d v pk pkh sig → C.verify pk d v sig = true →
+      ∃ d', (d', some pk) ∈ res := by
+  unfold postProcess at h
+  split at h
+  · simp at h
+  · rename_i a hf
+    simp only [Option.some.injEq] at h
+    subst h
+    have hc := foldl_complete C blobs (fun _ => False) { signed := [], unsigned := [] } a
+      ⟨by simp [GKeysNodup], by intro b hb; exact hb.elim⟩ hf
+    constructor
+    · rw [List.pairwise_append]
+      refine ⟨?_, ?_, ?_⟩
+      · apply List.Pairwise.filterMap _ _ hc.1
+        intro g g' hne x hx y hy pk hxp hyp
+        simp only [Option.map_eq_some_iff] at hx hy
+        obtain ⟨e, _, rfl⟩ := hx
+        obtain ⟨e', _, rfl⟩ := hy
+        simp only [Option.some.injEq] at hxp hyp
+        exact hne (hxp.trans hyp.symm)
+      · rw [List.pairwise_map]
+        exact List.Pairwise.imp (fun _ => by intro pk h1; simp at h1) (List.pairwise_of_forall (R := fun _ _ => True) (fun _ _ => trivial))
+      · intro x hx y hy pk _ hyp
+        simp only [List.mem_map] at hy
+        obtain ⟨d, _, rfl⟩ := hy
+        simp at hyp
+    · intro b hb d v pk pkh sig hw hv
+      obtain ⟨g, hg, hk, hin⟩ := hc.2 b (Or.inr hb) d v pk pkh sig hw hv
+      obtain ⟨e, he⟩ := pickBy_some_of_mem Gen.lookupPick.better g.2 (v, d) hin
+      refine ⟨e.2, ?_⟩
+      simp only [List.mem_append, List.mem_filterMap]
+      left
+      exact ⟨g, hg, by simp [he, hk]⟩
+
 /-- Within one signer's group the reported entry has the highest version (Python `max`, first maximal element). -/
 theorem group_pick_is_highest_version (l : List (Nat × Nat)) (e : Nat × Nat)
     (hmax : Gen.lookupPick = .maxVersion) (h : pickBy Gen.lookupPick.better l = some e) :
@@ -328,6 +368,121 @@ theorem group_pick_is_highest_version (l : List (Nat × Nat)) (e : Nat × Nat)
 
 /-- the hypothesis of the previous theorem holds for the code as it is now -/
 theorem lookup_picks_max : Gen.lookupPick = .maxVersion := by decide
+
+/-! ## the value codec at byte level (serialize_value / unserialize_value) -/
+
+open Ipv8 (Bytes) in
+/-- toy byte-level scheme for the examples: one-byte "signature" = length of the message -/
+def toyB : BCrypto :=
+  { keyOk := fun pk => !pk.isEmpty, sigLen := fun _ => 1,
+    verify := fun _ m s => s == [UInt8.ofNat m.length] }
+
+open Ipv8 (Bytes) in
+/-- `unserialize_value` returns a signed triple only if the three fields parse at offset 1, the key parses, and
+    `is_valid_signature(key, value[:-n], value[-n:])` holds for that key's signature length n — for every byte string. -/
+theorem unserializeB_signed_sound (B : BCrypto) (v d pk : Ipv8.Bytes) (ver : Nat)
+    (h : unserializeB B v = .ok d (some pk) ver) :
+    (∃ o3, readSigned v = some (d, ver, pk, o3)) ∧ B.keyOk pk = true ∧
+    B.verify pk (pyButLast v (B.sigLen pk)) (pyLast v (B.sigLen pk)) = true := by
+  unfold unserializeB at h
+  split at h
+  · simp at h
+  · split at h
+    · simp at h
+    · split at h
+      · split at h
+        · simp at h
+        · rename_i data ver' pk' o3 hrs
+          split at h
+          · split at h
+            · rename_i hk hv
+              simp only [BUnser.ok.injEq, Option.some.injEq] at h
+              obtain ⟨h1, h2, h3⟩ := h
+              subst h1; subst h2; subst h3
+              exact ⟨⟨o3, hrs⟩, hk, hv⟩
+            · simp at h
+          · simp at h
+      · simp at h
+
+
+open Ipv8 (Bytes) in
+/-- The signed message itself parses to the same data, version and key whenever the payload does not reach into the
+    signature: what a lookup reports is covered by the signature that was verified. -/
+theorem signature_covers_reported_fields (v d pk : Bytes) (ver o3 n : Nat)
+    (h : readSigned v = some (d, ver, pk, o3)) (hn : 0 < n) (hfit : o3 + n ≤ v.length) :
+    readSigned (pyButLast v n) = some (d, ver, pk, o3) := by
+  have hne : n ≠ 0 := by omega
+  simp only [pyButLast, hne, if_false]
+  unfold readSigned at h ⊢
+  split at h
+  · simp at h
+  · rename_i data o1 h1
+    split at h
+    · simp at h
+    · rename_i ver' o2 h2
+      split at h
+      · simp at h
+      · rename_i pk' o3' h3
+        simp only [Option.some.injEq, Prod.mk.injEq] at h
+        obtain ⟨rfl, rfl, rfl, rfl⟩ := h
+        have b2 := readU32_end v o1 _ _ h2
+        have b3 := readVarLenH_end v o2 _ _ h3
+        rw [readVarLenH_take v _ 1 _ _ h1 (by omega)]
+        simp only
+        rw [readU32_take v _ o1 _ _ h2 (by omega)]
+        simp only
+        rw [readVarLenH_take v _ o2 _ _ h3 (by omega)]
+
+open Ipv8 (Bytes) in
+/-- `unserialize_value(serialize_value(data, sign=True))` returns (data, own key, version): for every data and key of
+    at most 65535 bytes, every 32-bit version, and every signing function whose output has the scheme's (non-zero)
+    signature length and verifies. -/
+theorem unserialize_serialize_signed (B : BCrypto) (sign : Bytes → Bytes) (data pk : Bytes) (ver : Nat)
+    (hd : data.length < 65536) (hp : pk.length < 65536) (hv : ver < 4294967296)
+    (hk : B.keyOk pk = true) (hn : 0 < B.sigLen pk)
+    (hl : (sign (signedBody data ver pk)).length = B.sigLen pk)
+    (hs : B.verify pk (signedBody data ver pk) (sign (signedBody data ver pk)) = true) :
+    unserializeB B (serializeSigned sign data ver pk) = .ok data (some pk) ver := by
+  have hne : B.sigLen pk ≠ 0 := by omega
+  have hrs := readSigned_signedBody data pk (sign (signedBody data ver pk)) ver hd hp hv
+  have hlen : (signedBody data ver pk ++ sign (signedBody data ver pk)).length - B.sigLen pk
+      = (signedBody data ver pk).length := by
+    rw [List.length_append, hl]; omega
+  have hlast : pyLast (serializeSigned sign data ver pk) (B.sigLen pk) = sign (signedBody data ver pk) := by
+    simp only [pyLast, hne, if_false, serializeSigned, hlen]
+    exact List.drop_left
+  have hbut : pyButLast (serializeSigned sign data ver pk) (B.sigLen pk) = signedBody data ver pk := by
+    simp only [pyButLast, hne, if_false, serializeSigned, hlen]
+    exact List.take_left
+  have hcons : serializeSigned sign data ver pk
+      = UInt8.ofNat Gen.entryStrSigned :: ((encH data.length ++ data ++ encU32 ver ++ encH pk.length ++ pk)
+          ++ sign (signedBody data ver pk)) := by
+    simp [serializeSigned, signedBody]
+  unfold unserializeB
+  rw [hcons]
+  simp only
+  rw [← hcons]
+  have t1 : ¬ (UInt8.ofNat Gen.entryStrSigned).toNat = Gen.entryStr := by decide
+  have t2 : (UInt8.ofNat Gen.entryStrSigned).toNat = Gen.entryStrSigned := by decide
+  simp only [t1, if_false, t2, if_true]
+  have hrs' : readSigned (serializeSigned sign data ver pk)
+      = some (data, ver, pk, (signedBody data ver pk).length) := hrs
+  rw [hrs']
+  simp only [hk, if_true, hlast, hbut, hs]
+  have t3 : ¬ Gen.entryStrSigned = Gen.entryStr := by decide
+  rw [if_neg t3]
+
+open Ipv8 (Bytes) in
+theorem unserialize_serialize_plain (B : BCrypto) (data : Bytes) :
+    unserializeB B (serializePlain data) = .ok data none 0 := by
+  unfold unserializeB serializePlain
+  have t : (UInt8.ofNat Gen.entryStr).toNat = Gen.entryStr := by decide
+  simp [t]
+
+example : unserializeB toyB (serializeSigned (fun m => [UInt8.ofNat m.length]) [1, 2] 5 [9]) = .ok [1, 2] (some [9]) 5 := by
+  decide
+example : unserializeB toyB (serializeSigned (fun _ => [0]) [1, 2] 5 [9]) = .none := by decide
+example : unserializeB toyB [1, 0, 2, 1] = .raise := by decide
 
 /-! ## versions -/
 
